@@ -233,7 +233,7 @@ inductive LoopType | normal | redirect | authentication
 /-- what `urljoin` + `URLInfo.parse` made of a `Location` value (parameter) -/
 inductive Target
   | invalid                 -- ValueError
-  | other                   -- parses, but not an http/https URL (the caller's scheme filter ends the visit)
+  | other                   -- parses, but not an http/https URL: `ProtocolError('Redirect to an unsupported URL scheme.')`
   | url (u : UrlC)
   deriving DecidableEq, Repr, Inhabited
 
@@ -271,8 +271,6 @@ structure Sess where
   hostsWithAuth : List Str
   numRedirects : Nat
   jarCalls : Nat
-  /-- the next URL is not an http(s) URL: the visit ends without a request -/
-  stopped : Bool
   deriving Repr, Inhabited
 
 def isRedirectCode (st : Nat) : Bool := st = 301 || st = 302 || st = 303 || st = 307 || st = 308
@@ -323,7 +321,7 @@ def resetUrlBound (cfg : Cfg) (r : Req) : Req :=
 def initSess (cfg : Cfg) (r : Req) : Sess :=
   let r' := if cfg.useJar then addCookies cfg 0 r else r
   { orig := r', cur := some r', aliased := true, loopType := .normal, hostsWithAuth := [],
-    numRedirects := 0, jarCalls := if cfg.useJar then 1 else 0, stopped := false }
+    numRedirects := 0, jarCalls := if cfg.useJar then 1 else 0 }
 
 /-- what `start()` does to the request before the bytes are written
 (`_add_basic_auth_header` when due, then `prepare_for_send` inside `Stream.write_request`) -/
@@ -338,7 +336,7 @@ def processRedirect (cfg : Cfg) (s : Sess) (st : Nat) (hasLoc : Bool) (tgt : Tar
   else
     match tgt with
     | .invalid => .error .ProtocolError                                 -- Invalid redirect location
-    | .other => .ok { s with cur := none, aliased := false, loopType := .redirect, stopped := true }
+    | .other => .error .ProtocolError                                   -- Redirect to an unsupported URL scheme
     | .url u =>
       let req := if isRepeatCode st then resetUrlBound cfg { s.orig with url := u } else freshReq cfg u
       .ok { s with cur := some (prepareForSend req false), aliased := false, loopType := .redirect }
@@ -366,7 +364,7 @@ def processResponse (cfg : Cfg) (s : Sess) (r : Req) (st : Nat) (hasLoc : Bool) 
 
 inductive Outcome
   | done            -- the session is done (`next_request() is None`)
-  | skipped         -- the next URL is not http(s): the caller's filters end the visit
+  | skipped         -- the caller's URL filters refuse the next request (`item_session.skip(); break`)
   | error (e : PyExc)
   | fuel
   deriving DecidableEq, Repr, Inhabited
@@ -390,7 +388,7 @@ def run (cfg : Cfg) (adv : List Req → Reply) : Nat → Sess → List Req → N
   | 0, _, sent, last, fu, ar => ⟨sent, last, fu, ar, .fuel⟩
   | n + 1, s, sent, last, fu, ar =>
     match s.cur with
-    | none => ⟨sent, last, fu, ar, if s.stopped then .skipped else .done⟩
+    | none => ⟨sent, last, fu, ar, .done⟩
     | some r =>
       if !cfg.accept sent.length then ⟨sent, last, fu, ar, .skipped⟩   -- `item_session.skip(); break`
       else
